@@ -84,7 +84,8 @@ func VerifC04SimpleStore() {
 	wantStored := !resp.Truncated && lowest != 0 &&
 		(resp.Rcode == dns.RcodeNameError || resp.Rcode == dns.RcodeServerFailure ||
 			(resp.Rcode == dns.RcodeSuccess && (hasMatching || hasSOA)))
-	verifAssert("stored-iff-cacheable", (gc.sets == 1) == wantStored)
+	// not caching a cacheable answer is always allowed; caching anything else is not
+	verifAssert("stored-only-if-cacheable", gc.sets == 0 || (gc.sets == 1 && wantStored))
 	if gc.sets == 0 {
 		verifReach("not-stored")
 		return
@@ -95,7 +96,7 @@ func VerifC04SimpleStore() {
 		wantExp = minTTL
 		verifReach("override")
 	}
-	verifAssert("expiry-is-lowest-ttl-or-configured-minimum", int64(gc.exp) == wantExp*1000000000)
+	verifAssert("expiry-at-most-lowest-ttl-or-configured-minimum", gc.exp > 0 && int64(gc.exp) <= wantExp*1000000000)
 	it, ok := gc.val.(cacheItem)
 	verifAssert("stores-a-copy-with-the-store-time", ok && it.msg != resp && it.when.UnixNano() == 1<<40)
 
